@@ -38,7 +38,30 @@ var nameSamples = []string{"A", "space", "fi", "f_i", "uni0041", "uni00410042", 
 // genConcOp draws one operation.  Everything it touches is created inside the
 // closure or captured immutably, so tasks share nothing through the harness.
 func genConcOp(t *sim.Tape) concOp {
-	switch t.Weighted(4, 3, 2, 2, 2, 3, 2, 1, 1) {
+	switch t.Weighted(4, 3, 2, 2, 2, 3, 2, 1, 1, 1, 1, 1) {
+	case 9: // fonts only a foreign producer writes: composites, many glyphs, other lenIV
+		return foreignFontOp(t)
+	case 10: // dictionary comparisons and the other operators with hidden helpers
+		k := t.Choose(4)
+		return concOp{"Execute(dictionary comparisons)", func() string {
+			in := postscript.NewInterpreter()
+			in.MaxOps = psSafetyBudget
+			src := "currentdict dup eq userdict 5 dict ne << /a 1 >> << /b 2 >> eq << /a 1 >> dup eq 3 dict 3 dict eq errordict errordict ne"
+			if k > 0 {
+				src += " /d << /x 1 /y 2 >> def d d eq d << /x 1 /y 2 >> eq systemdict userdict eq"
+			}
+			err := in.Execute(strings.NewReader(src))
+			return dump.Err(err) + " " + dump.InterpNoDSC(in)
+		}}
+	case 11: // CMap files misusing the CIDInit operators (error paths)
+		file := gen.GenCMapMisuse(t)
+		return concOp{"ReadCMap(misused operators)", func() string {
+			d, err := postscript.ReadCMap(bytes.NewReader(file))
+			if d == nil {
+				return dump.Err(err) + " nil"
+			}
+			return dump.Err(err) + " " + dump.Object(d)
+		}}
 	case 0: // hostile program in its own interpreter
 		p := gen.GenPS(t, hostileOpts)
 		if t.Bool(1, 5) {
@@ -147,6 +170,28 @@ func genConcOp(t *sim.Tape) concOp {
 			return fmt.Sprintf("%q %v %v %d", f.GlyphList(), f.FontBBox(), f.FontBBoxPDF(), f.NumGlyphs())
 		}}
 	}
+}
+
+// foreignFontOp reads a font of a kind the library's own writer never produces.
+func foreignFontOp(t *sim.Tape) concOp {
+	var file []byte
+	what := ""
+	switch t.Choose(3) {
+	case 0:
+		file, _ = gen.BigSeacFont(t)
+		what = "large seac font"
+	case 1:
+		file, _ = gen.SeacFont(t)
+		what = "seac font"
+	default:
+		var n int
+		file, n = gen.LenIVFont(t)
+		what = fmt.Sprintf("lenIV %d font", n)
+	}
+	return concOp{"type1.Read(" + what + ")", func() string {
+		g, err := type1.Read(bytes.NewReader(file))
+		return dump.Err(err) + " " + dump.Font(g)
+	}}
 }
 
 // probeBattery is the fixed workload run on fresh objects; its dump must never
@@ -528,7 +573,7 @@ func C18() *sim.Check {
 		var hist []string
 		for i := 0; i < n; i++ {
 			var op concOp
-			switch t.Weighted(5, 2, 2) {
+			switch t.Weighted(5, 2, 2, 2) {
 			case 0:
 				// a hostile program fed in several Execute calls, probes in between
 				p := gen.GenPS(t, hostileOpts)
@@ -561,6 +606,11 @@ func C18() *sim.Check {
 				hist = append(hist, "hostile program: "+printable(p.Src))
 			case 1:
 				op = genConcOp(t)
+				safeConc(op)
+				hist = append(hist, op.Name)
+			case 3:
+				// fonts only a foreign producer writes
+				op = foreignFontOp(t)
 				safeConc(op)
 				hist = append(hist, op.Name)
 			default:
